@@ -120,6 +120,10 @@ func matrixScenarios(tier string, withSubs bool) []*Scenario {
 		}
 		sc.Cancel = pickCancel(base, crit, 450)
 		sc.ID = name
+		// long multi-connection histories with a dozen timed events each: on a loaded machine one late
+		// wake-up shifts everything behind it; a disagreement is re-run alone (up to two more times)
+		// before it counts - a real change of behaviour disagrees every time
+		sc.Sensitive = true
 		return sc
 	}
 	for i, a := range kinds {
